@@ -1,7 +1,9 @@
 """Driver for the history dimension of C19: ONE real Env instance per case, a sequence of operations on it.
 Input : {"cases": [{id, init: {lv, tm, cv, rel, loop, off}, fl, ev: [{n, t, lv, tm, cv, node, off, ctl, ix}]}]}
-        n: fmt | ifmt | at | ugenE | ugenI | ugenEI | ugenIE | set_levels | set_times | set_curves |
-           set_release_node | set_loop_node | set_offset
+        n: fmt | ifmt | at | dur | ugenE | ugenI | ugenEI | ugenIE | set_levels | set_times | set_curves |
+           set_release_node | set_loop_node | set_offset | set_duration (d) | derive (kind, lo, hi)
+        i: the instance operated on (1 = the constructed one, 2 = the one derived with range/exprange/curverange;
+           derive on instance i (re)creates the other one)
 Output: the cases with ev[i].r (and r2 for the two-generator SynthDefs) = {k, v, x}
 No verdicts here: TLC (TraceEnvObj.tla) decides.  Projection as in c19_env.py (floor(v * 2^20))."""
 import json
@@ -37,10 +39,28 @@ def ok(vals):
     return {'k': 'ok', 'v': [fix(x) for x in vals], 'x': ''}
 
 
-def perform(env, e, fl):
+def perform(insts, e, fl):
     from sc3.synth.ugens import EnvGen, IEnvGen, Out
     n = e['n']
     none = {'k': 'ok', 'v': [], 'x': ''}
+    env = insts[e['i']]
+    if n == 'derive':
+        lo, hi = num(e['lo'], fl), num(e['hi'], fl)
+        if e['kind'] == 'range':
+            new = env.range(lo, hi)
+        elif e['kind'] == 'exprange':
+            new = env.exprange(lo, hi)
+        elif e['kind'] == 'curverange':
+            new = env.curverange(lo, hi, -4)
+        else:
+            raise AssertionError(e['kind'])
+        insts[3 - e['i']] = new
+        return none, none
+    if n == 'dur':
+        return ok([env.duration]), none
+    if n == 'set_duration':
+        env.duration = num(e['d'], fl)
+        return none, none
     if n == 'fmt':
         f = env._envgen_format()
         if len(f) != 1:
@@ -102,13 +122,14 @@ def observe(case):
     env = Env([num(x, fl) for x in i['lv']], [num(x, fl) for x in i['tm']], [curve(x, fl) for x in i['cv']],
               node(i['rel']), node(i['loop']), num(i['off'], fl))
     out = []
+    insts = {1: env}
     for e in case['ev']:
         e = dict(e)
         for k, d in (('t', 0), ('lv', []), ('tm', []), ('cv', []), ('node', []), ('off', [0, 1]), ('ctl', []),
-                     ('ix', [1, 2])):
+                     ('ix', [1, 2]), ('i', 1), ('kind', ''), ('lo', [0, 1]), ('hi', [1, 1]), ('d', [1, 1])):
             e.setdefault(k, d)
         try:
-            r, r2 = perform(env, e, fl)
+            r, r2 = perform(insts, e, fl)
         except AssertionError:
             raise
         except Exception as ex:
